@@ -9,7 +9,7 @@ def reshape_gemm_reshape_pattern(op, input_a, input_b, input_c, shape_a, shape_c
     reshape_a = op.Reshape(input_a, shape_a)
     # TODO: Temporary workaround to support benchmodels.
     # Tracked by https://github.com/microsoft/onnx-rewriter/issues/197.
-    gemm = op.Gemm(reshape_a, input_b, input_c, alpha=1.0, beta=1.0)
+    gemm = op.Gemm(reshape_a, input_b, input_c, alpha=1.0, beta=1.0, _outputs=["gemm"])
     return op.Reshape(gemm, shape_c)
 
 
@@ -18,6 +18,23 @@ def matmul_add(op, input_a, input_b, input_c, **_):
     return op.Add(matmul, input_c)
 
 
-gemm_to_matmul_add_rule = RewriteRule(
-    reshape_gemm_reshape_pattern, matmul_add, check_if_not_need_reshape
-)
+def _check(context, input_a, input_b, input_c, shape_c, gemm, **_) -> bool:
+    gemm_node = gemm.producer()
+    # MatMul(a, b) does not transpose its operands
+    if gemm_node.attributes.get_int("transA", 0) or gemm_node.attributes.get_int("transB", 0):
+        return False
+    if not check_if_not_need_reshape(context, input_a, input_b, shape_c):
+        return False
+    # C was broadcast to the flattened (M, N); Add needs it to broadcast into the un-flattened
+    # MatMul output, whose shape is shape_c.
+    out_dims = shape_c.const_value.numpy().tolist()
+    c_shape = input_c.shape
+    if c_shape is None or c_shape.rank() > len(out_dims):
+        return False
+    for c_dim, out_dim in zip(reversed(list(c_shape)), reversed(out_dims)):
+        if c_dim != 1 and c_dim != out_dim:
+            return False
+    return True
+
+
+gemm_to_matmul_add_rule = RewriteRule(reshape_gemm_reshape_pattern, matmul_add, _check)
